@@ -28,7 +28,11 @@ func buildGitBug() (string, error) {
 	if repo == "" {
 		repo = "/repo"
 	}
+	// next to the harness binary: ./check uses one build directory per tree under test
 	out := filepath.Join(evidence.Root(), ".build", "C15", "git-bug")
+	if exe, err := os.Executable(); err == nil {
+		out = filepath.Join(filepath.Dir(exe), "git-bug")
+	}
 	os.MkdirAll(filepath.Dir(out), 0o755)
 	cmd := exec.Command("go", "build", "-o", out, ".")
 	cmd.Dir = repo
